@@ -158,7 +158,7 @@ class C12(Sim):
     PROBES = ["zero_vector", "point_box", "empty_box", "empty_intersection", "infinite_box", "raising_call",
               "errmode_nondefault", "errmode_flip", "shared_array_boxes", "pad_aliased_box", "boundary_point", "contained_point",
               "outside_point", "degenerate_triangle", "parallel_lines", "parallel_vectors", "inplace_normalize", "mesh_box",
-              "tiny_scale", "huge_scale", "same_array_twice", "needle_corner", "integer_vector_rotated", "mesh_vertex_moved"]
+              "tiny_scale", "huge_scale", "same_array_twice", "needle_corner", "integer_vector_rotated", "mesh_vertex_moved", "caller_overwrites_array"]
     QUICK_RUNS = 8000
     THOROUGH_RUNS = 1000000
     BLOCK = 100
@@ -707,6 +707,24 @@ class C12(Sim):
                 C = [b + k * (a - b) + (tiny if q == j else 0.0) for q, (a, b) in enumerate(zip(A, B))]
                 self._sliver = [ia, ib, self.next_arr]
                 return self._new_arr(C)
+        rp = getattr(self, "_replay_ev", None)
+        if rp is not None:
+            self._replay_ev = None
+            if all(i in self.arr for i in rp["a"]):
+                return dict(rp, a=list(rp["a"]))
+        lr = getattr(self, "_last_rot", None)
+        if r.chance(0.07):
+            # the CALLER overwrites one of its own arrays in place (no box is built on it); every later call must see the new numbers.
+            # Preferably the axis / vector of the last rotation, which is then asked again with the same angle.
+            free = [i for i in sorted(self.arr) if i not in self.wrapped and self.arr[i].ndim == 1]
+            pref = [i for i in (lr["a"] if lr else []) if i in free]
+            if free:
+                i = r.choice(pref) if pref and r.chance(0.7) else r.choice(free)
+                if pref and i in pref:
+                    self._replay_ev = lr
+                d = self.arr[i].shape[0]
+                vals = self._gen_vec(r, d, self._expo(r)) if r.chance(0.7) else [-x for x in self.vals(i)]
+                return {"op": "overwrite", "a": [i], "vals": vals}
         op = r.choice(ops)
         sl = getattr(self, "_sliver", None)
         if sl and op in ("cotan", "angle_3pts") and all(i in self.arr for i in sl) and r.chance(0.6):
@@ -751,6 +769,8 @@ class C12(Sim):
                 iv = [r.randint(-6, 6) for _ in range(n)]
                 if any(iv):
                     ev["ivec"] = iv
+        if op in ("rotate_2d", "rotate_axis"):
+            self._last_rot = ev
         if op == "face_basis":
             ev["form"] = r.choice(["args", "list"])
         if op in ("norm", "dot", "det2", "det3", "normalized"):
@@ -923,6 +943,9 @@ class C12(Sim):
                 return False
         if "id" in ev and ev["id"] in self.box:
             return False
+        if op == "overwrite":
+            i = ev["a"][0]
+            return i not in self.wrapped and self.arr[i].shape == (len(ev["vals"]),)
         if op == "box_mesh" and self.mesh is None:
             return False
         if op == "move_mesh_vertex":
@@ -940,6 +963,12 @@ class C12(Sim):
         if op == "new_arr":
             self._add_array(ev["id"], ev["vals"])
             return list(self.arr[ev["id"]].shape)
+        if op == "overwrite":
+            a = self.arr[ev["a"][0]]
+            a[:] = ev["vals"]
+            self.snap[ev["a"][0]] = (a.shape, a.tobytes())
+            self.probes["caller_overwrites_array"] += 1
+            return "overwritten"
         if op == "move_mesh_vertex":
             self.mesh.vertices[ev["i"]] = self.Vec(np.array(ev["p"], dtype=float))
             self.mesh_snap = self._read_mesh()
